@@ -27,7 +27,7 @@ type fnCase struct {
 // catalogWithPast fills a catalog through a history: 0 = set the pairs on a fresh catalog; 1 = two other keys
 // come first, every observer is used, the two keys are removed again; 2 = the catalog holds other keys, every
 // observer is used, RemoveAll, then the pairs are set; 3 = the pairs are set in the opposite order, every
-// observer is used, ReverseValues.  The content is the same in all four cases.
+// observer is used, ReverseValues; 4 and 5: see below.  The content is the same in all cases.
 type valueSetter interface{ SetValue(k, v int) }
 
 func catalogWithPast(hist int, n int, fill func(cat valueSetter)) col.CatalogLike[int, int] {
@@ -70,6 +70,21 @@ func catalogWithPast(hist int, n int, fill func(cat valueSetter)) col.CatalogLik
 		}
 		observe()
 		cat.ReverseValues()
+	case 5:
+		// the pairs are set in the opposite order, another key is set last of all, every observer is used, the
+		// catalog is reversed (the newest key now comes first) and the newest key is removed
+		var order []int
+		fill(recorder{cat, &order})
+		cat.RemoveAll()
+		values := map[int]int{}
+		fill(collector(values))
+		for i := len(order) - 1; i >= 0; i-- {
+			cat.SetValue(order[i], values[order[i]])
+		}
+		cat.SetValue(92, 9)
+		observe()
+		cat.ReverseValues()
+		cat.RemoveValue(92)
 	case 4:
 		// the pairs are set in the opposite order, every observer is used, then the catalog is sorted into
 		// the intended order with a ranker of the caller's own
@@ -648,7 +663,7 @@ func genFnExhaustive(s core.Source) fnCase {
 	switch c.Fn {
 	case "Concatenate":
 		c.Elem = core.Pick(s, []string{"int", "any"}, "elem")
-		c.Hist = s.Choose(5, "hist")
+		c.Hist = s.Choose(6, "hist")
 		c.A = enumList(s, 3, 4, "a")
 		if s.Choose(2, "alias") == 1 {
 			c.Alias = true
@@ -657,7 +672,7 @@ func genFnExhaustive(s core.Source) fnCase {
 		}
 	case "Merge":
 		c.Zero = s.Choose(2, "zero") == 1
-		c.Hist = s.Choose(5, "hist")
+		c.Hist = s.Choose(6, "hist")
 		c.A = enumOrderedSubset(s, 4, "a")
 		if s.Choose(2, "alias") == 1 {
 			c.Alias = true
@@ -667,7 +682,7 @@ func genFnExhaustive(s core.Source) fnCase {
 	case "Extract":
 		c.A = enumOrderedSubset(s, 3, "a") // keys 0..2 present (some of them), key 3.. absent
 		c.Zero = s.Choose(2, "zero") == 1
-		c.Hist = s.Choose(5, "hist")
+		c.Hist = s.Choose(6, "hist")
 		c.Keys = core.Pick(s, []string{"List", "Set", "Stack"}, "keys-kind")
 		c.B = enumList(s, 4, 3, "keys")
 	}
@@ -680,18 +695,18 @@ func genFnRandom(s core.Source) fnCase {
 	switch c.Fn {
 	case "Concatenate":
 		c.Elem = core.Pick(s, codecNames, "elem")
-		c.Hist = s.Choose(5, "hist")
+		c.Hist = s.Choose(6, "hist")
 		c.A = enumList(s, 8, 12, "a")
 		c.B = enumList(s, 8, 12, "b")
 	case "Merge":
 		c.Zero = s.Choose(2, "zero") == 1
-		c.Hist = s.Choose(5, "hist")
+		c.Hist = s.Choose(6, "hist")
 		c.A = enumOrderedSubset(s, 7, "a")
 		c.B = enumOrderedSubset(s, 7, "b")
 	case "Extract":
 		c.A = enumOrderedSubset(s, 6, "a")
 		c.Zero = s.Choose(2, "zero") == 1
-		c.Hist = s.Choose(5, "hist")
+		c.Hist = s.Choose(6, "hist")
 		c.Keys = core.Pick(s, []string{"List", "Array", "Set", "Stack", "Queue"}, "keys-kind")
 		c.B = enumList(s, 8, 10, "keys")
 	}
